@@ -85,3 +85,38 @@ Example C03_nonvacuous :
   forallb (fun d => match d_sfl d with Some i => negb (sf_over i) | None => true end)
           (fst (run exact None ex_txs)) = true.
 Proof. vm_compute. repeat split. Qed.
+
+(* Under rust_decimal rounding, on histories without rounding (Proofs/DecTransfer.v:
+   the ledger under the representable arithmetic [rep] accepts the history, i.e.
+   every exact intermediate value is a 28-place / 96-bit decimal): the ROUNDED
+   ledger is the exact one (C01_dec_equals_exact_when_representable), so the
+   conservation equation holds for the rows of the rounded ledger. *)
+From ACB Require Import Base.Fit Proofs.DecTransfer Proofs.DecCorollaries.
+Theorem C03_dec_conservation_when_representable : forall init txs ds,
+  run rep init txs = (ds, None) ->
+  Forall c03_row txs ->
+  run dec init txs = (ds, None) /\
+  forall p rest, ds = p ++ rest -> head_not_sfla rest -> Forall not_over p ->
+    sum_gains p
+    = (sum_proceeds p - (sum_costs p + total_acb (spec_init init)) + sum_roc (spec_init init) p
+       + total_acb (after (spec_init init) p))%Qc.
+Proof. exact DecCorollaries.dec_conservation_when_representable. Qed.
+Check C03_dec_conservation_when_representable : forall init txs ds,
+  run rep init txs = (ds, None) ->
+  Forall c03_row txs ->
+  run dec init txs = (ds, None) /\
+  forall p rest, ds = p ++ rest -> head_not_sfla rest -> Forall not_over p ->
+    sum_gains p
+    = (sum_proceeds p - (sum_costs p + total_acb (spec_init init)) + sum_roc (spec_init init) p
+       + total_acb (after (spec_init init) p))%Qc.
+Print Assumptions C03_dec_conservation_when_representable.
+
+(* Non-vacuity: the history of C03_nonvacuous (a loss of 50 on 8 of 10 shares,
+   40 of it denied and shared 24 : 16 by two buying affiliates) is accepted
+   by the representable arithmetic, with the same 7 rows. *)
+Example C03_dec_nonvacuous :
+  snd (run rep None ex_txs) = None /\ length (fst (run rep None ex_txs)) = 7%nat /\
+  map (fun d => qpair (denied_of d)) (fst (run rep None ex_txs))
+  = [(0, 1%positive); (-40, 1%positive); (0, 1%positive); (0, 1%positive); (0, 1%positive);
+     (0, 1%positive); (0, 1%positive)].
+Proof. vm_compute. repeat split. Qed.
